@@ -4,16 +4,16 @@ fn main() -> Result<(), String> {
     let _program_name = args.next();
 
     match args.next().as_deref() {
-        None => ui::terminal::interactive(),
+        None => on_interpreter_stack(ui::terminal::interactive),
         Some("--expression") => {
             let command = args.next().ok_or_else(|| "Missing expression. Use --help flag for help.")?;
-            let result = ui::terminal::run_command(&command)?;
+            let result = on_interpreter_stack(move || ui::terminal::run_command(&command))?;
             println!("{result}");
             Ok(())
         },
         Some("--load") => {
             let filename = args.next().ok_or_else(|| "Missing filename. Use --help flag for help.")?;
-            ui::terminal::run_file(&filename)
+            on_interpreter_stack(move || ui::terminal::run_file(&filename))
         },
         Some("--gui")  => ui::gui::run(),
         #[cfg(picilisp_verif)]
@@ -27,6 +27,17 @@ fn main() -> Result<(), String> {
         },
         Some(other)    => Err(format!("Unknown command: {other}. Use --help flag for help.")),
     }
+}
+
+/// Run the interpreter on a thread whose call stack is big enough for `MAX_RECURSION_DEPTH` nested evaluations,
+/// so that deep recursion ends in a `stackoverflow` signal and not in a native stack overflow.
+fn on_interpreter_stack<T: Send + 'static>(f: impl FnOnce() -> T + Send + 'static) -> T {
+    std::thread::Builder::new()
+        .stack_size(config::CALL_STACK_SIZE)
+        .spawn(f)
+        .expect("cannot start the interpreter thread")
+        .join()
+        .expect("the interpreter thread panicked")
 }
 
 fn usage() -> String {
